@@ -9,6 +9,10 @@ params:
   cancels   [times]   (each from its own thread)
   cbs       [times]   add_done_callback calls (each from its own thread)
   waits     [[time, kind]]  kind in result | exception | wait | as_completed
+  recancel  None | "input": a done-callback registered on the underlying future (delegate future / first input)
+            BEFORE the library registers its own calls cancel() on the returned future - re-entering a cancel()
+            that is being forwarded, or cancelling from inside the completion of the underlying work;
+            "own": a done-callback of the returned future itself calls its cancel()
   horizon
 """
 import concurrent.futures as cf
@@ -32,6 +36,11 @@ def build(p):
         from more_executors import futures as F
         s = E.SCHED
         inputs = []
+        holder = []
+
+        def recancel_cb(f_):
+            if holder:
+                H.do_cancel(holder[0], 1)
 
         def finish_input(inp):
             if how == "never":
@@ -51,6 +60,8 @@ def build(p):
         if entry in EXEC:
             dur = at if how != "never" else 0
             plan = {1: {"dur": dur, "cancellable": p.get("cancellable", True)}}
+            if p.get("recancel") == "input":
+                plan[1]["on_future"] = lambda f_: f_.add_done_callback(recancel_cb)
             base = ManualExecutor(plan, tag="tap") if entry != "pool" else None
             if entry == "sync":
                 ex = Executors.sync()
@@ -84,6 +95,8 @@ def build(p):
         else:
             n_in = 2 if entry in ("f_or", "f_and", "f_zip", "f_sequence", "f_traverse", "f_apply") else 1
             inputs = [Future() for _ in range(n_in)]
+            if p.get("recancel") == "input":
+                inputs[-1 if entry == "f_apply" else 0].add_done_callback(recancel_cb)
             if entry == "f_or":
                 fut = F.f_or(*inputs)
             elif entry == "f_and":
@@ -111,6 +124,9 @@ def build(p):
             for i, inp in enumerate(inputs):
                 E.spawn("env%d" % (i + 1), finish_input, inp)
         s.track(1, fut)
+        holder.append(fut)
+        if p.get("recancel") == "own":
+            fut.add_done_callback(recancel_cb)
         if p.get("cb_raise_first"):
             def bad_cb(f_):
                 raise H.OtherError("callback")
